@@ -176,6 +176,6 @@ def gen_prestate(rng, opts):
         return items
     n = rng.randint(1, 4)
     for _ in range(n):
-        k = rng.choice(["stale_report", "stale_report", "unrelated", "tmp_like", "bak", "old_log", "readonly_stale", "subdir", "symlink_stale", "dangling_symlink_stale"])
+        k = rng.choice(["stale_report", "stale_report", "unrelated", "tmp_like", "bak", "old_log", "readonly_stale", "subdir", "symlink_stale", "dangling_symlink_stale", "hardlink_stale"])
         items.append(k)
     return items
